@@ -1359,9 +1359,7 @@ class LangServer:
                 # Includes of, and links into, the removed objects are now stale
                 for _, tmp_file in self.workspace.items():
                     tmp_file.ast.resolve_includes(self.workspace, path=filepath)
-                self.link_version = (self.link_version + 1) % 1000
-                for _, tmp_file in self.workspace.items():
-                    tmp_file.ast.resolve_links(self.obj_tree, self.link_version)
+                self._resolve_all_links()
             return
         did_change, err_str = self.update_workspace_file(
             filepath, read_file=True, allow_empty=did_open
@@ -1376,9 +1374,7 @@ class LangServer:
             file_obj = self.workspace.get(filepath)
             file_obj.ast.resolve_includes(self.workspace)
             # Update inheritance/links
-            self.link_version = (self.link_version + 1) % 1000
-            for _, file_obj in self.workspace.items():
-                file_obj.ast.resolve_links(self.obj_tree, self.link_version)
+            self._resolve_all_links()
         if not self.disable_diagnostics:
             self.send_diagnostics(uri)
 
@@ -1524,7 +1520,15 @@ class LangServer:
         for _, file_obj in self.workspace.items():
             file_obj.ast.resolve_includes(self.workspace)
         # Update inheritance/links
+        self._resolve_all_links()
+
+    def _resolve_all_links(self) -> None:
+        """Resolve inheritance for every file first, then the links of every file, so
+        that the result does not depend on the order of the files in the workspace"""
         self.link_version = (self.link_version + 1) % 1000
+        for _, file_obj in self.workspace.items():
+            for inherit_obj in file_obj.ast.inherit_objs:
+                inherit_obj.resolve_inherit(self.obj_tree, self.link_version)
         for _, file_obj in self.workspace.items():
             file_obj.ast.resolve_links(self.obj_tree, self.link_version)
 
